@@ -122,6 +122,9 @@ type hooker struct {
 	snapSeen map[string]int
 	snapN    int
 	logPath  string
+	// nested transactions to run while the out-of-order compaction is paused at a race site
+	pending []int
+	runTx   func(i int)
 }
 
 // copyTree copies the database directory as it is on disk right now.  The contents of
@@ -301,6 +304,18 @@ func (h *hooker) handle(site string, _ int) {
 		h.log.line(false, "CRASH %s %d", site, n)
 		os.Exit(137)
 	}
+	if site == "c03.ooo.compactionHead.nextSegment" || site == "c03.ooo.compactionHead.mmapped" {
+		// the compaction goroutine is "paused" here: commit the next nested transaction
+		h.mu.Lock()
+		next := -1
+		if len(h.pending) > 0 {
+			next, h.pending = h.pending[0], h.pending[1:]
+		}
+		h.mu.Unlock()
+		if next >= 0 {
+			h.runTx(next)
+		}
+	}
 }
 
 func seriesLabels(sid int) labels.Labels {
@@ -350,50 +365,82 @@ func childMain(dir, wlPath, logPath, crash string, classify bool, snapDir string
 		os.Exit(3)
 	}
 	verifhook.SetHandler(hk.handle)
+	runTx := func(i int) error {
+		op := wl.Ops[i]
+		cl.line(true, "begin %d", i)
+		var reqs []tsdbx.AppendReq
+		for _, s := range op.Samples {
+			reqs = append(reqs, tsdbx.AppendReq{Labels: seriesLabels(s.S), T: s.T, V: float64(s.V)})
+		}
+		res, err := db.Tx(reqs, op.Kind == "tx")
+		codes := make([]int, len(res))
+		for j, r := range res {
+			codes[j] = int(r)
+		}
+		cj, _ := json.Marshal(codes)
+		cl.line(false, "res %d %s", i, cj)
+		if classify && op.Kind == "tx" && err == nil && !op.Nested {
+			// which accepted samples sit in the out-of-order part of the head
+			oooSet := map[[2]int64]bool{}
+			for _, hs := range db.HeadDump() {
+				var sid int
+				fmt.Sscanf(strings.TrimSuffix(strings.SplitN(hs.Labels, `s="`, 2)[1], `"}`), "%d", &sid)
+				for _, c := range hs.OOO {
+					for _, x := range c.Samples {
+						oooSet[[2]int64{int64(sid), x.T}] = true
+					}
+				}
+			}
+			cls := make([]int, len(res))
+			for j, s := range op.Samples {
+				if res[j] == tsdbx.OK && oooSet[[2]int64{int64(s.S), s.T}] {
+					cls[j] = 1
+				}
+			}
+			cj, _ := json.Marshal(cls)
+			cl.line(false, "class %d %s", i, cj)
+		}
+		if err != nil {
+			cl.line(true, "err %d %v", i, err)
+		} else {
+			cl.line(true, "ack %d", i)
+		}
+		return err
+	}
+	hk.runTx = func(i int) { runTx(i) }
 	for i, op := range wl.Ops {
+		if op.Kind == "tx" || op.Kind == "rollback" {
+			if !op.Nested {
+				runTx(i)
+			}
+			continue
+		}
 		cl.line(true, "begin %d", i)
 		var opErr error
 		switch op.Kind {
-		case "tx", "rollback":
-			var reqs []tsdbx.AppendReq
-			for _, s := range op.Samples {
-				reqs = append(reqs, tsdbx.AppendReq{Labels: seriesLabels(s.S), T: s.T, V: float64(s.V)})
-			}
-			res, err := db.Tx(reqs, op.Kind == "tx")
-			opErr = err
-			codes := make([]int, len(res))
-			for j, r := range res {
-				codes[j] = int(r)
-			}
-			cj, _ := json.Marshal(codes)
-			cl.line(false, "res %d %s", i, cj)
-			if classify && op.Kind == "tx" && err == nil {
-				// which accepted samples sit in the out-of-order part of the head
-				oooSet := map[[2]int64]bool{}
-				for _, hs := range db.HeadDump() {
-					var sid int
-					fmt.Sscanf(strings.TrimSuffix(strings.SplitN(hs.Labels, `s="`, 2)[1], `"}`), "%d", &sid)
-					for _, c := range hs.OOO {
-						for _, x := range c.Samples {
-							oooSet[[2]int64{int64(sid), x.T}] = true
-						}
-					}
-				}
-				cls := make([]int, len(res))
-				for j, s := range op.Samples {
-					if res[j] == tsdbx.OK && oooSet[[2]int64{int64(s.S), s.T}] {
-						cls[j] = 1
-					}
-				}
-				cj, _ := json.Marshal(cls)
-				cl.line(false, "class %d %s", i, cj)
-			}
 		case "delete":
 			opErr = db.Delete(op.Mint, op.Maxt, selMatcher(op.Sel))
 		case "compact":
 			opErr = db.CompactWithPlanner()
 		case "compactooo":
 			opErr = db.CompactOOOHead()
+		case "compactooo_race":
+			// the nested transactions just before this op run from inside the hooks of NewOOOCompactionHead
+			hk.mu.Lock()
+			for j := 0; j < i; j++ {
+				if wl.Ops[j].Nested {
+					hk.pending = append(hk.pending, j)
+				}
+			}
+			hk.mu.Unlock()
+			opErr = db.CompactOOOHead()
+			hk.mu.Lock()
+			left := hk.pending
+			hk.pending = nil
+			hk.mu.Unlock()
+			for _, j := range left {
+				runTx(j)
+			}
 		default:
 			panic("unknown op " + op.Kind)
 		}
